@@ -161,7 +161,17 @@ func (g *goCompiler) expr(x Expr) string {
 			return fmt.Sprintf("govcDisjoint(%s, %s)", g.expr(n.Args[0]), g.expr(n.Args[1]))
 		case "sameptr":
 			return fmt.Sprintf("(govcPtr(%s) == govcPtr(%s))", g.expr(n.Args[0]), g.expr(n.Args[1]))
-		case "typeis", "allocated", "base", "off", "embed", "pre":
+		case "typeis":
+			if s, ok := n.Args[1].(*EStr); ok {
+				return fmt.Sprintf("func() bool { _, ok := interface{}(%s).(%s); return ok }()", g.expr(n.Args[0]), goTypeName(s.V, g.pkg))
+			}
+			return g.bad("typeis needs a literal type")
+		case "unbox":
+			if s, ok := n.Args[1].(*EStr); ok {
+				return fmt.Sprintf("interface{}(%s).(%s)", g.expr(n.Args[0]), goTypeName(s.V, g.pkg))
+			}
+			return g.bad("unbox needs a literal type")
+		case "allocated", "base", "off", "embed", "pre":
 			return g.bad("%s() is not executable", n.Fun)
 		}
 		if _, ok := convNames[n.Fun]; ok {
@@ -271,6 +281,36 @@ func (p *replayPlan) qualifier(t types.Type) string {
 func (p *replayPlan) build(t types.Type, v Val, depth int) goVal {
 	e := p.e
 	bv := e.sorter.mode == ModeBV
+	if st, ok := t.Underlying().(*types.Struct); ok && depth <= 1 {
+		var fs []goVal
+		var names []string
+		for i := 0; i < st.NumFields(); i++ {
+			f := st.Field(i)
+			switch f.Type().Underlying().(type) {
+			case *types.Basic, *types.Slice:
+			default:
+				continue
+			}
+			if isFloatType(f.Type()) {
+				continue
+			}
+			lo, hi := e.sorter.fieldRange(st, i)
+			g := p.build(f.Type(), Val{T: f.Type(), L: v.L[lo:hi]}, depth+1)
+			if g == nil {
+				continue
+			}
+			fs = append(fs, g)
+			names = append(names, f.Name())
+		}
+		tn := p.qualifier(t)
+		return func(vals []string) string {
+			var xs []string
+			for i, g := range fs {
+				xs = append(xs, names[i]+": "+g(vals))
+			}
+			return tn + "{" + strings.Join(xs, ", ") + "}"
+		}
+	}
 	switch u := t.Underlying().(type) {
 	case *types.Basic:
 		switch {
